@@ -71,8 +71,8 @@ Definition run (d : decomp) (v : view) : out :=
   | DTtmG cs, VMatrix => rtg (ttm_to_matrix GIops cs)
   | DTtmG cs, VUnfolded m => rtg (ttm_to_unfolded GIops cs m)
   | DTtmG cs, VVec => rtg (ttm_to_vec GIops cs)
-  (* cp_norm as it is: the weights enter un-conjugated (Model/Factorized2.v, conj_weights = false) *)
-  | DCpG w fs, VNorm => match cp_normsq_conj GIops gconj false w fs with Ok (a, b) => ONormC (inject_Z a) (inject_Z b) | Err => OErr end
+  (* cp_norm since /repo 20cafdc: w_r * conj(w_s) (Model/Factorized2.v, conj_weights = true) *)
+  | DCpG w fs, VNorm => match cp_normsq_conj GIops gconj true w fs with Ok (a, b) => ONormC (inject_Z a) (inject_Z b) | Err => OErr end
   | DCp w fs _, VValidate => match validate_cp w fs with Ok (s, r) => OSR s [r] | Err => OErr end
   | DCp w fs mask, VTensor => rt (cp_to_tensor Zops w fs mask)
   | DCp w fs _, VUnfolded m => rt (cp_to_unfolded Zops w fs m)
